@@ -297,6 +297,7 @@ class GPyRegression:
         # Must cast these as 2d for GPy
         x = x.reshape((-1, self.input_dim))
         y = y.reshape((-1, 1))
+        self._rbf_is_cached = False  # the cached terms belong to the previous evidence
 
         if self._gp is None:
             self._init_gp(x, y)
@@ -317,6 +318,7 @@ class GPyRegression:
     def optimize(self):
         """Optimize GP hyperparameters."""
         logger.debug("Optimizing GP hyperparameters")
+        self._rbf_is_cached = False  # the cached terms belong to the previous hyperparameters
         try:
             self._gp.optimize(self.optimizer, max_iters=self.max_opt_iters)
         except np.linalg.linalg.LinAlgError:
